@@ -37,10 +37,12 @@ class C11(PropBase):
                       "in_progress_probe_ids", "sasl_multistep_completed", "bind_after_search_done", "terminated_by_unbind",
                       "terminated_by_notice", "custom_types_on_wire", "odd_integers_on_wire", "pdu_over_127", "pdu_over_255",
                       "entries_interleaved_two_searches", "empty_vs_absent_optional", "partial_drain", "refused_attempt_mid_conversation",
-                      "idle_probe", "late_registration", "send_failed_while_encoding")
+                      "idle_probe", "late_registration", "send_failed_while_encoding", "deep_pipeline")
 
     def init_op(self, rng):
         customs = [t for t in ("CustomAuth", "CustomControl", "CustomFilter") if rng.random() < 0.35]
+        customs += rng.choice([[], [], [], ["EdgeFilter31", "EdgeAuth31"], ["EdgeFilter30", "EdgeAuth32"], ["EdgeFilter127", "EdgeAuth128"],
+                               ["EdgeFilter128", "EdgeAuth127"], ["EdgeFilter32", "EdgeAuth30"]])
         late = []
         if customs and rng.random() < 0.5:
             # some of the custom types are registered (on both sides) only in the middle of the conversation
@@ -52,9 +54,10 @@ class C11(PropBase):
                              {"name": "s", "role": "s", "peer": "c", "register": customs}],
                 "customs": customs, "late_customs": late, "personality": pers, "odd_ints": rng.random() < 0.3,
                 "bad_text": rng.choice([0.0, 0.0, 0.03]), "debug_logging": rng.random() < 0.25,
-                "big": rng.choice([0.03, 0.1, 0.3]), "huge": rng.choice([0.0, 0.0, 0.0, 0.01]),
+                "big": rng.choice([0.03, 0.1, 0.3]), "huge": rng.choice([0.0, 0.0, 0.0, 0.01]), "mega": rng.choice([0.0, 0.3]),
                 "max_out": rng.choice([1, 2, 4, 8]), "term_p": rng.choice([0.0, 0.0, 0.01, 0.03]),
                 "attempt_p": rng.choice([0.0, 0.05, 0.15]),
+                "pipeline": rng.choice([0] * 48 + [100, 101]),
                 "quiesce_every": rng.choice([15, 30, 60, 1000]), "starve": rng.choice(["c", "s"]),
                 "chunk": rng.choice(["mixed", "mixed", "byte", "whole"])}
 
@@ -65,14 +68,24 @@ class C11(PropBase):
                 "midpdu": False, "two": False, "resp_while_req": False, "joint": set(),
                 "heap": None, "arrivals": {"c": [], "s": []}, "last_was_mid": {"c": False, "s": False},
                 "ids": [], "entry_last": None, "delivered": {"c": 0, "s": 0}}
+        # a deep pipeline: N requests sent back to back before anything is answered (pending-operation limits, id growth)
+        for i in range(init.get("pipeline", 0)):
+            self._call(st, {"op": "call", "who": "c", "m": "search_request" if i % 3 else "extended_request",
+                            "a": {} if i % 3 else {"name": "1.3.6.1.4.1.4203.1.11.3"}})
+        if init.get("pipeline", 0):
+            self._drain(st, {"op": "drain", "who": "c", "n": None})
+            self._deliver(st, {"op": "deliver", "to": "s", "n": None})
+            st.hit("deep_pipeline")
         return st
 
     # ------------------------------------------------------------------ policy
 
     def _gen(self, st, rng):
         init = st.w.init
-        return Gen(rng, big=init["big"], huge=init["huge"], odd_ints=init["odd_ints"],
-                   customs=list(init["customs"]) + list(st.x.get("registered_late", [])), bad_text=init.get("bad_text", 0.0))
+        g = Gen(rng, big=init["big"], huge=init["huge"], odd_ints=init["odd_ints"],
+                customs=list(init["customs"]) + list(st.x.get("registered_late", [])), bad_text=init.get("bad_text", 0.0))
+        g.mega = init.get("mega", 0.0)
+        return g
 
     def _app_op(self, st, rng, who):
         w = st.w
